@@ -67,6 +67,9 @@ func newEnumType3(args px.List) *EnumType {
 			enums = []string{first.String()}
 		case *Array:
 			return newEnumType3(first)
+		case booleanValue:
+			// the flag alone, as Parameters() writes it for an Enum without values
+			return NewEnumType([]string{}, first.Bool())
 		default:
 			panic(illegalArgumentType(`Enum[]`, 0, `String or Array[String]`, args.At(0)))
 		}
